@@ -29,6 +29,7 @@ from harness.common import Ctx, Part, lean_batch, load_corpus, pmap
 
 THEOREMS = [
     "IrVerif.Scope.C17_total",
+    "IrVerif.Scope.C17_consistent",
 ]
 ASSUMPTIONS = [
     "byte-level parsing is protobuf's; Python RecursionError counts as 'raises'",
@@ -401,8 +402,11 @@ def run_case(part, m: onnx.ModelProto, stream: str, want_model: bool, lean_reqs:
                         m2 = serde.deserialize_model(q)
                         q2 = serde.serialize_model(m2)
                     except Exception as e:  # noqa: BLE001
+                        sig = "fixpoint:reload-raises:" + type(sc.root_cause(e)).__name__
+                        if "is not a valid DataType" in str(sc.root_cause(e)) and sc.innermost_wrapper(e) == "_deserialize_graph":
+                            sig += ":shadowed-initializer-with-invalid-dtype"  # D104
                         part.fail(
-                            "fixpoint:reload-raises:" + type(sc.root_cause(e)).__name__,
+                            sig,
                             f"to_proto(from_proto(p)) cannot be deserialized+serialized again: {sc.root_cause(e)!s:.200}",
                             case,
                         )
@@ -442,9 +446,15 @@ def diff_case(part, out: dict, case, flags, model, err, q) -> None:
             if out.get("ok") or out.get("err", {}).get("kind") != "redeclared":
                 part.disagree("real code rejects a redeclared output, model does not", case, out.get("err"), "redeclared")
         else:
-            part.count("raised_outside_model=" + type(sc.root_cause(err)).__name__)
-            if not out.get("ok"):
-                pass  # both raise; different reason reached first
+            where = sc.innermost_wrapper(err)
+            kind = type(sc.root_cause(err)).__name__
+            if kind == "TypeError" and "missing 1 required positional argument: 'base_path'" in str(sc.root_cause(err)):
+                where = "deserialize_tensor"  # D105: the error-capturing wrapper of deserialize_tensor itself fails
+            part.count(f"raised_outside_model={kind}@{where}")
+            if where in ("_deserialize_graph", "_deserialize_node", "") and out.get("ok"):
+                # raised by the name-resolution code itself (not by a leaf decoder): the model must know
+                part.disagree(f"real code raises {kind} in {where or 'deserialize_model'}, model returns an IR",
+                              case, "ok", f"{kind}: {sc.root_cause(err)!s:.120}")
         return
     if not out.get("ok"):
         part.disagree("model raises, real code returns an IR", case, out.get("err"), "ok")
